@@ -25,6 +25,7 @@ type c09Plan struct {
 	space  *qt.Space
 	nTree  int
 	nRand  int
+	stride int
 }
 
 func newC09Plan(tier string) *c09Plan {
@@ -44,7 +45,11 @@ func newC09Plan(tier string) *c09Plan {
 		b += nBatches(s.Size())
 	}
 	p.nSeq = b
-	p.nTree = nBatches(p.space.Size())
+	p.stride = 1
+	if tier == "thorough" {
+		p.stride = 8 // 1:8 sample of the large depth-2 space (every node of every tree is a variant)
+	}
+	p.nTree = nBatches(p.space.Size()) / p.stride
 	return p
 }
 
@@ -73,7 +78,7 @@ func (p c09) RunBatch(ctx *core.Ctx, batch int) {
 			c09Tokens(ctx, s.Tokens(i), r)
 		}
 	case batch < plan.nSeq+plan.nTree:
-		lo, hi := batchRange(plan.space.Size(), batch-plan.nSeq)
+		lo, hi := batchRange(plan.space.Size(), (batch-plan.nSeq)*plan.stride)
 		r := ctx.Rand("parens")
 		for i := lo; i < hi; i++ {
 			c09Tree(ctx, plan.space.At(i).Clone(), r)
